@@ -7,7 +7,7 @@ import (
 // A slice obtained from Get has length 0, and every byte of its former length is zero - whatever the previous owner
 // (or anybody holding on to the buffer) wrote into it; Resize keeps the contents.
 //
-//verif:harness prop=C08 name=byteslicepool_clean unwind=40
+//verif:harness prop=C08 name=byteslicepool_clean unwind=40 replay_attempts=6
 func VerifBSP() {
 	if !zzverif.Symbolic() {
 		vOneP()
